@@ -4619,7 +4619,9 @@ class PyCdlib:
         # the same thing, we can't actually add a hard link.
 
         old_rec = dr.DirectoryRecord()  # type: Union[dr.DirectoryRecord, udfmod.UDFFileEntry]
-        fmode = 0
+        # If the old name carries no Rock Ridge file mode (Joliet, UDF, boot
+        # catalog), a new Rock Ridge name still has to be a regular file.
+        fmode = 0o0100444 if self.rock_ridge else 0
         if iso_old_path is not None:
             # A link from a file on the ISO9660 filesystem...
             old_rec = self._find_iso_record(iso_old_path)
